@@ -78,6 +78,9 @@ def apply(ctx, fr, path, f, args, kwargs, node=None):
     elif isinstance(f, Bound):
         if isinstance(f.callee, FuncRef):
             yield from call_function(ctx, fr, path, f.callee, [f.selfv] + args, kwargs, node)
+        elif isinstance(f.callee, ExtFunc):
+            # method of an object of an external class: external call with the receiver as first argument
+            yield from call_extern(ctx, fr, path, f.callee.qualname, [f.selfv] + args, kwargs, node)
         else:
             yield from call_method_builtin(ctx, fr, path, f.selfv, f.callee, args, kwargs, node)
     elif isinstance(f, ClassRef):
@@ -384,6 +387,11 @@ def call_extern(ctx, fr, path, qualname, args, kwargs, node=None, result_ann=Non
     if not vs:
         res = z3.Const(f"{site}!const", V)
     path.note(f"external call {qualname}: result havocked (function of its arguments), no effect on verified state")
+    if "EXT" in path.ghost:
+        # ghost log of the external calls of this activation: (qualified name, argument values..., result)
+        log = path.ghost["EXT"]
+        rec = V.VTuple(smt.seq_of_list([V.VStr(z3.StringVal(qualname))] + vs + [res]))
+        path.ghost["EXT"] = Val(V.VList(simp(z3.Concat(ctx.as_seq(path, log), z3.Unit(rec)))), ("list", None))
     if result_ann is None:
         result_ann = ctx.extern_return_ann(qualname)
         if result_ann is not None:
@@ -421,7 +429,23 @@ def dc_replace(ctx, fr, path, obj, changes, node=None):
 
 
 def exec_with(ctx, fr, path, st):
-    raise Unsupported(f"with statement at line {st.lineno}")
+    """`with <external call> as f:` — the context manager is an external object (a file): the body runs with `f` bound
+    to the call's result; exceptional exits and __exit__ effects are not modelled (listed as an assumption)."""
+    from .stmt import assign_to, exec_block
+    if len(st.items) != 1:
+        raise Unsupported(f"with statement with several items at line {st.lineno}")
+    item = st.items[0]
+    out = []
+    for p, v in ev(ctx, fr, path, item.context_expr):
+        if not (isinstance(v, Val) and v.own == "fresh" and any("external call" in n for n in p.notes[-3:])):
+            raise Unsupported(f"with statement over a value that is not the result of an external call (line {st.lineno})")
+        p.note("with-statement over an external context manager: body executed once, __enter__/__exit__ not modelled")
+        if item.optional_vars is not None:
+            for q in assign_to(ctx, fr, p, item.optional_vars, v):
+                out += exec_block(ctx, fr, q, st.body)
+        else:
+            out += exec_block(ctx, fr, p, st.body)
+    return out
 
 
 # ------------------------------------------------------------------------------------------------ builtins
